@@ -487,6 +487,19 @@ func gridCalls(w func(entry string, args ...V) callSpec) []callSpec {
 			out = append(out, w("base64.encode", vBytes([]byte(raw)), vBool(pad)), w("base64.url_encode", vBytes([]byte(raw)), vBool(pad)))
 		}
 	}
+	// special float values, every ordered pair for the two-argument functions
+	specials := []V{vFloat(math.Inf(1)), vFloat(math.Inf(-1)), vFloat(math.NaN()), vFloat(0), vFloat(math.Copysign(0, -1)), vFloat(1), vFloat(-1), vFloat(0.5),
+		vFloat(math.MaxFloat64), vFloat(math.SmallestNonzeroFloat64), vFloat(-2.5), vInt(0), vInt(-3), vInt(7), vInt(math.MaxInt64)}
+	for _, a := range specials {
+		for _, fn := range []string{"sqrt", "sin", "cos", "tan", "log", "log10", "log2", "round", "abs", "ceil", "floor", "is_inf"} {
+			out = append(out, w("math."+fn, a))
+		}
+		for _, b := range specials {
+			for _, fn := range []string{"max", "min", "mod", "pow", "atan2"} {
+				out = append(out, w("math."+fn, a, b))
+			}
+		}
+	}
 	for _, n := range []int64{-1, 0, 1, 2, 3} {
 		out = append(out, w("bytes.replace", vBytes([]byte("aaaa")), vBytes([]byte("a")), vBytes([]byte("b")), vInt(n)),
 			w("regexp.object.find_all", vStr("a"), vStr("aaaa"), vInt(n)), w("regexp.object.split", vStr("a"), vStr("bab ab"), vInt(n)), w("strings.repeat", vStr("ab"), vInt(n)))
